@@ -11,15 +11,22 @@ import (
 
 type c15Bits struct {
 	bits []byte // one bit per element (0/1), possibly symbolic
+	cut  bool   // C16 huge mode: the stream ends after the huge code, later elements are dropped
 }
 
 func (w *c15Bits) u(v uint64, n int) {
+	if w.cut {
+		return
+	}
 	for k := n - 1; k >= 0; k-- {
 		w.bits = append(w.bits, byte((v>>uint(k))&1))
 	}
 }
 
 func (w *c15Bits) flag(f bool) {
+	if w.cut {
+		return
+	}
 	w.bits = append(w.bits, vfy.IteU8(f, 1, 0)) // no fork on a symbolic flag
 }
 
@@ -28,10 +35,20 @@ func (w *c15Bits) flag(f bool) {
 type c15V struct {
 	v uint64
 	m int
+	// C16 huge mode: written as [hm zeros][1][hm info bits hv] instead, and the stream is cut
+	hv uint64
+	hm int
 }
 
 // ue writes an unsigned Exp-Golomb code (9.1): [m zeros][1][m info bits], codeNum+1 = 1<<m | info.
 func (w *c15Bits) ue(e c15V) {
+	if e.hm > 0 {
+		w.u(0, e.hm)
+		w.u(1, 1)
+		w.u(e.hv, e.hm)
+		w.cut = true
+		return
+	}
 	w.u(0, e.m)
 	w.u(e.v+1, e.m+1)
 }
@@ -42,8 +59,19 @@ func c15C(v uint64) c15V {
 	for (v+1)>>uint(m+1) != 0 {
 		m++
 	}
-	return c15V{v, m}
+	if c15Huge > 0 && !c15FocusTaken {
+		// huge mode: the concrete elements (counts, types) are candidates as well; the generator
+		// keeps the structure of v
+		c15CIdx++
+		if h, ok := c15HugeElem("c" + string(rune('a'+c15CIdx/26)) + string(rune('a'+c15CIdx%26))); ok {
+			h.v, h.m = v, m
+			return h
+		}
+	}
+	return c15V{v: v, m: m}
 }
+
+var c15CIdx int
 
 // signed value of a se(v) code number k (9.1.1): (-1)^(k+1) * ceil(k/2), computed without a branch.
 func (e c15V) signed() int64 {
@@ -56,6 +84,48 @@ func (e c15V) signed() int64 {
 // instance's class (clamped to the element's range), the info bits are symbolic; in sweep mode
 // one element per path additionally takes every code length of its range.
 var c15Class, c15Sign int
+
+// c15Huge > 0 (property C16): exactly one element per path is written as an Exp-Golomb code with
+// c15Huge leading zero bits, whatever its legal range, and the stream ends
+// there; the generator itself goes on with the in-range value it drew. The harness then returns after the parser
+// call that saw the cut stream.
+var c15Huge int
+
+// c15Bool draws a flag. In huge mode the flags are concrete (c15HugeBools: 1 all set, 2 all
+// clear, 3 alternating), so that one path per replaced element remains.
+var c15HugeBools, c15BoolIdx int
+
+func c15Bool(name string) bool {
+	b := vfy.Bool(name)
+	if c15Huge > 0 && c15HugeBools > 0 {
+		c15BoolIdx++
+		want := c15HugeBools == 1 || c15HugeBools == 3 && c15BoolIdx%2 == 1
+		vfy.Assume(b == want)
+		return want
+	}
+	return b
+}
+
+func c15HugeCut() bool { return c15Huge > 0 && c15FocusTaken }
+
+// c15HugeLast stands before the last parser call of a harness: in huge mode a path on which no
+// element was replaced is of no interest (it is what C15 explores).
+func c15HugeLast() {
+	if c15Huge > 0 && !c15FocusTaken {
+		vfy.Assume(false)
+	}
+}
+
+func c15HugeElem(name string) (c15V, bool) {
+	if c15Huge > 0 && !c15FocusTaken && vfy.Choose(name+".huge", 2) == 0 { // 0 first: early elements first
+		c15FocusTaken = true
+		// info bits 0...0 or 0...01 (code number odd / even: both signs of a se(v)), concrete so
+		// that count-driven loops in the parser run concretely into the step budget
+		hv := uint64(vfy.Choose(name+".hv", 2))
+		return c15V{hv: hv, hm: c15Huge}, true
+	}
+	return c15V{}, false
+}
 var c15Sweep, c15FocusTaken bool
 
 // c15Begin: class = m + 100*sweep + 1000*signSeed. With sweep, one element per path additionally
@@ -63,6 +133,7 @@ var c15Sweep, c15FocusTaken bool
 // positive), because bits.ReadSignedGolomb forks on it; magnitudes stay symbolic.
 func c15Begin(class int) {
 	c15Sweep, c15FocusTaken = (class/100)%10 != 0, false
+	c15CIdx, c15BoolIdx = 0, 0
 	c15Class = class % 100
 	c15Sign = class / 1000
 }
@@ -86,6 +157,16 @@ func c15Elem(name string, max uint64, signed bool) c15V {
 		m = vfy.Choose(name+".m", maxM+1)
 	}
 	info := uint64(vfy.U16(name)) & ((1 << uint(m)) - 1)
+	if c15Huge > 0 && c15HugeBools > 0 {
+		// huge mode with concrete flags: concrete info bits as well (all set / clear / 0101..)
+		c15BoolIdx++
+		want := ([]uint64{0, 0xffff, 0, 0x5555}[c15HugeBools] + uint64(c15BoolIdx)*7) & ((1 << uint(m)) - 1)
+		if ((1<<uint(m))|want)-1 > max {
+			want = 0
+		}
+		vfy.Assume(info == want)
+		info = want
+	}
 	if signed && m > 0 {
 		c15Sign++
 		info = info&^1 | uint64(1^(c15Sign&1)) // code number odd <=> value positive
@@ -94,7 +175,11 @@ func c15Elem(name string, max uint64, signed bool) c15V {
 	if (uint64(1)<<uint(m+1))-2 > max {
 		vfy.Assume(v <= max)
 	}
-	return c15V{v, m}
+	if h, ok := c15HugeElem(name); ok { // the generator goes on with the in-range value
+		h.v, h.m = v, m
+		return h
+	}
+	return c15V{v: v, m: m}
 }
 
 // bytes finishes with rbsp_trailing_bits and packs the bits; the harness assumes (and the solver
@@ -109,6 +194,9 @@ func (w *c15Bits) bytes(nalType byte) []byte {
 
 // pack prepends the two-byte NAL unit header (layer 0, temporal id 0) to the byte-aligned bits.
 func (w *c15Bits) pack(nalType byte) []byte {
+	for len(w.bits)%8 != 0 { // only after a cut (huge mode)
+		w.bits = append(w.bits, 0)
+	}
 	out := []byte{nalType << 1, 1}
 	for i := 0; i < len(w.bits); i += 8 {
 		var b byte
@@ -118,7 +206,11 @@ func (w *c15Bits) pack(nalType byte) []byte {
 		out = append(out, b)
 	}
 	for i := 2; i+2 < len(out); i++ {
-		vfy.Assume(!vfy.And3(out[i] == 0, out[i+1] == 0, out[i+2] <= 3))
+		if c15Huge > 0 {
+			vfy.Assume(!vfy.And3(out[i] == 0, out[i+1] == 0, out[i+2] == 3)) // all the reader acts on
+		} else {
+			vfy.Assume(!vfy.And3(out[i] == 0, out[i+1] == 0, out[i+2] <= 3))
+		}
 	}
 	return out
 }
@@ -196,7 +288,7 @@ var c15UsedK int
 
 func c15Used(name string) bool {
 	if c15UsedBits < 0 {
-		return vfy.Bool(name)
+		return c15Bool(name)
 	}
 	c15UsedK++
 	return (c15UsedBits>>uint(c15UsedK-1))&1 == 1
@@ -233,7 +325,7 @@ func c15GenRPS(idx int, inSlice bool, prev []*c15RPS, shape int) *c15RPS {
 		if inSlice {
 			r.deltaIdxMinus1 = c15C(0)
 		}
-		r.deltaRpsSign = vfy.Bool("rps.sign")
+		r.deltaRpsSign = c15Bool("rps.sign")
 		if c15UsedBits >= 0 {
 			r.deltaRpsSign = true // deltaRps < 0: with only negative pictures in the reference set every derived delta POC is negative
 		}
@@ -325,7 +417,7 @@ func c15GenHSPS(variant, shape int, fixLog2 int) *c15HSPS {
 	s := &c15HSPS{}
 	s.vpsID = uint64(vfy.U8("vpsid")) & 15
 	s.msl = uint64(variant & 1)
-	s.nesting, s.tier = vfy.Bool("nesting"), vfy.Bool("tier")
+	s.nesting, s.tier = c15Bool("nesting"), c15Bool("tier")
 	s.space, s.idc = uint64(vfy.U8("space"))&3, uint64(vfy.U8("idc"))&31
 	s.compat = uint64(vfy.U32("compat"))
 	s.constraint = vfy.U64("constraint") & (1<<48 - 1)
@@ -334,7 +426,7 @@ func c15GenHSPS(variant, shape int, fixLog2 int) *c15HSPS {
 		sub := c15PTLSub{profilePresent: (shape/8)&1 == 1, levelPresent: (shape/16)&1 == 1}
 		if sub.profilePresent {
 			sub.space, sub.idc = uint64(vfy.U8("sub.space"))&3, uint64(vfy.U8("sub.idc"))&31
-			sub.tier = vfy.Bool("sub.tier")
+			sub.tier = c15Bool("sub.tier")
 			sub.compat = uint64(vfy.U32("sub.compat"))
 			sub.constraint = vfy.U64("sub.constraint") & (1<<48 - 1)
 		}
@@ -376,7 +468,7 @@ func c15GenHSPS(variant, shape int, fixLog2 int) *c15HSPS {
 	s.log2MinTb, s.log2DiffTb = c15UE("log2mintb", 3), c15UE("log2difftb", 3)
 	s.depthInter, s.depthIntra = c15UE("depthinter", 4), c15UE("depthintra", 4)
 	s.scaling = (shape/64)%2 == 1
-	s.amp, s.sao = vfy.Bool("amp"), vfy.Bool("sao")
+	s.amp, s.sao = c15Bool("amp"), c15Bool("sao")
 	if fixLog2 >= 0 {
 		s.sao = fixLog2%2 == 0
 	}
@@ -384,7 +476,7 @@ func c15GenHSPS(variant, shape int, fixLog2 int) *c15HSPS {
 	if s.pcm {
 		s.pcmBdl, s.pcmBdc = uint64(vfy.U8("pcmbdl"))&15, uint64(vfy.U8("pcmbdc"))&15
 		s.pcmLog2Min, s.pcmLog2Diff = c15UE("pcmlog2min", 2), c15UE("pcmlog2diff", 2)
-		s.pcmLoopOff = vfy.Bool("pcmloop")
+		s.pcmLoopOff = c15Bool("pcmloop")
 	}
 	nrps := (variant >> 6) % 3
 	for i := 0; i < nrps; i++ {
@@ -395,10 +487,10 @@ func c15GenHSPS(variant, shape int, fixLog2 int) *c15HSPS {
 		nlt := 1 + (shape/128)%2
 		for i := 0; i < nlt; i++ {
 			s.ltPoc = append(s.ltPoc, uint64(vfy.U16("ltpoc")))
-			s.ltUsed = append(s.ltUsed, vfy.Bool("ltused"))
+			s.ltUsed = append(s.ltUsed, c15Bool("ltused"))
 		}
 	}
-	s.tmvp, s.strongIntra = vfy.Bool("tmvp"), vfy.Bool("strong")
+	s.tmvp, s.strongIntra = c15Bool("tmvp"), c15Bool("strong")
 	if fixLog2 >= 0 {
 		s.tmvp = fixLog2%3 == 1
 	}
@@ -417,11 +509,11 @@ func c15GenHSPS(variant, shape int, fixLog2 int) *c15HSPS {
 		// overscan_appropriate_flag follows only if overscan_info_present_flag: keep it concrete
 		s.overscan = vs&4 == 4 && vs&8 == 0
 		if s.overscan {
-			s.overscanAppropriate = vfy.Bool("overscanok")
+			s.overscanAppropriate = c15Bool("overscanok")
 		}
 		s.videoSignal = vs&4 == 4
 		if s.videoSignal {
-			s.videoFormat, s.fullRange = uint64(vfy.U8("vformat"))&7, vfy.Bool("fullrange")
+			s.videoFormat, s.fullRange = uint64(vfy.U8("vformat"))&7, c15Bool("fullrange")
 			s.colourDesc = vs&8 == 8
 			if s.colourDesc {
 				s.prim, s.transfer, s.matrix = uint64(vfy.U8("prim")), uint64(vfy.U8("transfer")), uint64(vfy.U8("matrix"))
@@ -431,7 +523,7 @@ func c15GenHSPS(variant, shape int, fixLog2 int) *c15HSPS {
 		if s.chromaLoc {
 			s.chromaLocTop, s.chromaLocBottom = c15UE("cloctop", 5), c15UE("clocbottom", 5)
 		}
-		s.neutral, s.fieldSeq, s.frameField = vfy.Bool("neutral"), vfy.Bool("fieldseq"), vfy.Bool("framefield")
+		s.neutral, s.fieldSeq, s.frameField = c15Bool("neutral"), c15Bool("fieldseq"), c15Bool("framefield")
 		s.ddw = vs&16 == 16 && vs&1 == 0
 		if s.ddw {
 			s.ddwl, s.ddwr, s.ddwt, s.ddwb = c15UE("ddwl", 100), c15UE("ddwr", 100), c15UE("ddwt", 100), c15UE("ddwb", 100)
@@ -447,7 +539,7 @@ func c15GenHSPS(variant, shape int, fixLog2 int) *c15HSPS {
 		s.restriction = vs&8 == 8
 		if s.restriction {
 			for i := range s.brFlags {
-				s.brFlags[i] = vfy.Bool("brflag")
+				s.brFlags[i] = c15Bool("brflag")
 			}
 			s.br = [5]c15V{c15UE("minspatial", 4095), c15UE("maxbytes", 16), c15UE("maxbits", 16), c15UE("log2mvh", 15), c15UE("log2mvv", 15)}
 		}
@@ -456,7 +548,7 @@ func c15GenHSPS(variant, shape int, fixLog2 int) *c15HSPS {
 	if s.ext {
 		s.rangeExt = true
 		for i := range s.rangeFlags {
-			s.rangeFlags[i] = vfy.Bool("rangeflag")
+			s.rangeFlags[i] = c15Bool("rangeflag")
 		}
 	}
 	return s
@@ -775,7 +867,11 @@ func VerifC15HSPS(variant, shape, class int) {
 	c15Begin(class)
 	s := c15GenHSPS(variant, shape, -1)
 	nalu := s.serialize()
+	c15HugeLast()
 	got, err := ParseSPSNALUnit(nalu)
+	if c15HugeCut() {
+		return
+	}
 	vfy.Assert(err == nil, "serialized SPS parses")
 	if err != nil {
 		return
@@ -811,24 +907,24 @@ func c15GenHPPS(spsID c15V, shape int) *c15HPPS {
 	if b(2) {
 		p.extraBits = 2
 	}
-	p.signHiding, p.cabacInit = vfy.Bool("signhiding"), b(14)
+	p.signHiding, p.cabacInit = c15Bool("signhiding"), b(14)
 	p.l0, p.l1 = c15UE("l0", 14), c15UE("l1", 14)
 	p.initQp = c15SE("initqp", 50)
-	p.constrainedIntra, p.transformSkip = vfy.Bool("cintra"), vfy.Bool("tskip")
+	p.constrainedIntra, p.transformSkip = c15Bool("cintra"), c15Bool("tskip")
 	p.cuQpDelta = b(3)
 	if p.cuQpDelta {
 		p.diffCuQpDeltaDepth = c15UE("diffcuqp", 3)
 	}
 	p.cbQp, p.crQp = c15SE("cbqp", 24), c15SE("crqp", 24)
 	p.sliceChromaQp = b(4)
-	p.wp, p.wbp, p.transquant = vfy.Bool("wp"), vfy.Bool("wbp"), vfy.Bool("transquant")
+	p.wp, p.wbp, p.transquant = c15Bool("wp"), c15Bool("wbp"), c15Bool("transquant")
 	p.tiles, p.sync = b(5), b(7)
 	if p.tiles {
 		p.uniform = b(6)
 		if !p.uniform {
 			p.colW, p.rowH = c15UE("colw", 30), c15UE("rowh", 30)
 		}
-		p.lfTiles = vfy.Bool("lftiles")
+		p.lfTiles = c15Bool("lftiles")
 	}
 	p.lfSlices = b(8)
 	p.deblockCtrl = b(9)
@@ -972,13 +1068,16 @@ func c15HSlice(spsVariant, spsShape, fixLog2, ppsShape, sliceShape, class, stype
 	s := c15GenHSPS(spsVariant, spsShape, fixLog2)
 	spsNalu := s.serialize()
 	sps, err := ParseSPSNALUnit(spsNalu)
+	if c15HugeCut() {
+		return
+	}
 	vfy.Assert(err == nil, "SPS parses")
 	if err != nil {
 		return
 	}
 	spsMap := map[uint32]*SPS{uint32(sps.SpsID): sps}
 	p := c15GenHPPS(s.id, ppsShape)
-	vfy.Assume(p.id.v != s.id.v)
+	vfy.Assume(c15Huge > 0 || p.id.v != s.id.v)
 	n0, n1 := 1, 1
 	if pbit(1) {
 		n0 = 2
@@ -996,6 +1095,9 @@ func c15HSlice(spsVariant, spsShape, fixLog2, ppsShape, sliceShape, class, stype
 	}
 	ppsNalu := p.serialize()
 	pps, err := ParsePPSNALUnit(ppsNalu, spsMap)
+	if c15HugeCut() {
+		return
+	}
 	vfy.Assert(err == nil, "serialized PPS parses")
 	if err != nil {
 		return
@@ -1012,7 +1114,7 @@ func c15HSlice(spsVariant, spsShape, fixLog2, ppsShape, sliceShape, class, stype
 	w.flag(first)
 	noOutput := false
 	if nalType >= 16 && nalType <= 23 {
-		noOutput = vfy.Bool("nooutput")
+		noOutput = c15Bool("nooutput")
 		w.flag(noOutput)
 	}
 	w.ue(p.id)
@@ -1042,11 +1144,11 @@ func c15HSlice(spsVariant, spsShape, fixLog2, ppsShape, sliceShape, class, stype
 	sliceDisable = p.disable // inferred when not present (7.4.7.1)
 	if !dependentSeg {
 		for i := 0; i < int(p.extraBits); i++ {
-			w.flag(vfy.Bool("reserved"))
+			w.flag(c15Bool("reserved"))
 		}
 		w.ue(c15C(uint64(stype))) // slice_type
 		if p.outputFlag {
-			picOutput = vfy.Bool("picoutput")
+			picOutput = c15Bool("picoutput")
 			w.flag(picOutput)
 		}
 		if s.sepPlane {
@@ -1091,7 +1193,7 @@ func c15HSlice(spsVariant, spsShape, fixLog2, ppsShape, sliceShape, class, stype
 						}
 					} else {
 						ltPoc = uint64(vfy.U16("ltpoc.slice")) & (1<<uint(pb) - 1)
-						ltUsed = vfy.Bool("ltused.slice")
+						ltUsed = c15Bool("ltused.slice")
 						w.u(ltPoc, pb)
 						w.flag(ltUsed)
 					}
@@ -1105,7 +1207,7 @@ func c15HSlice(spsVariant, spsShape, fixLog2, ppsShape, sliceShape, class, stype
 				}
 			}
 			if s.tmvp {
-				sliceTmvp = vfy.Bool("slicetmvp")
+				sliceTmvp = c15Bool("slicetmvp")
 				if isPB {
 					sliceTmvp = pbit(9) // gates the collocated picture syntax
 				}
@@ -1171,11 +1273,11 @@ func c15HSlice(spsVariant, spsShape, fixLog2, ppsShape, sliceShape, class, stype
 				}
 			}
 			if stype == 0 {
-				pb.mvdL1Zero = vfy.Bool("mvdl1zero")
+				pb.mvdL1Zero = c15Bool("mvdl1zero")
 				w.flag(pb.mvdL1Zero)
 			}
 			if p.cabacInit {
-				pb.cabacInit = vfy.Bool("cabacinit")
+				pb.cabacInit = c15Bool("cabacinit")
 				w.flag(pb.cabacInit)
 			}
 			pb.collFromL0 = true // inferred when not present (7.4.7.1)
@@ -1255,7 +1357,7 @@ func c15HSlice(spsVariant, spsShape, fixLog2, ppsShape, sliceShape, class, stype
 			}
 		}
 		if p.lfSlices && (saoLuma || saoChroma || !sliceDisable) {
-			lfAcross = vfy.Bool("lfacross")
+			lfAcross = c15Bool("lfacross")
 			w.flag(lfAcross)
 		}
 	}
@@ -1289,14 +1391,18 @@ func c15HSlice(spsVariant, spsShape, fixLog2, ppsShape, sliceShape, class, stype
 	}
 	// byte_alignment()
 	w.u(1, 1)
-	for len(w.bits)%8 != 0 {
+	for !w.cut && len(w.bits)%8 != 0 {
 		w.u(0, 1)
 	}
 	hdrBytes := len(w.bits) / 8
 	w.u(uint64(vfy.U8("data")), 8) // slice data
 	w.u(0x80, 8)
 	nalu := w.pack(nalType)
+	c15HugeLast()
 	sh, err := ParseSliceHeader(nalu, spsMap, ppsMap)
+	if c15HugeCut() {
+		return
+	}
 	// known finding: the parser does not derive the pictures of an inter-predicted RPS, so it
 	// counts none of them in NumPicTotalCurr and skips ref_pic_lists_modification()
 	vfy.Known("C15-hevc-inter-rps-not-derived", pb.interRPSInUse && pb.hasMod)
@@ -1432,6 +1538,9 @@ func VerifC15HConfig(variant, shape, csShape, class int) {
 	ppsNalu := p.serialize()
 	vpsNalu := []byte{0x40, 0x01, 0x0c, 0x01, 0xff, 0xff, vfy.U8("vps"), 0x80}
 	rec, err := CreateHEVCDecConfRec([][]byte{vpsNalu}, [][]byte{spsNalu}, [][]byte{ppsNalu}, true, true, true, true)
+	if c15HugeCut() {
+		return
+	}
 	vfy.Assert(err == nil, "CreateHEVCDecConfRec")
 	if err != nil {
 		return
@@ -1459,6 +1568,9 @@ func VerifC15HConfig(variant, shape, csShape, class int) {
 		}
 	}
 	sps, err := ParseSPSNALUnit(spsNalu)
+	if c15HugeCut() {
+		return
+	}
 	vfy.Assert(err == nil, "SPS parses")
 	if err != nil {
 		return
